@@ -888,6 +888,88 @@ theorem copyDs_attrs {α : Type} (nan : α) (ds r : Ds α) (h : copyDs nan ds = 
     r.attrs = Attrs.update [] ds.attrs ∧ ∀ kv ∈ r.vars, ∃ kv0 ∈ ds.vars, kv.2.attrs = kv0.2.attrs :=
   C16.copyDs_spec nan ds r h
 
+/-! ### wave 5: the remaining Dataset mirrors (helpers: Proofs/C16Ds2.lean) -/
+
+open DSV in
+/-- `Dataset.reindex_axis(values, axis, fill_value, raise_error, method)` in full: as `reindexAxisDs_attrs` - Dataset
+and variable metadata kept, the reindexed axis keeps the Dataset axis' metadata, for every `raise_error` / `method` -/
+theorem reindexAxisDsM_attrs {α : Type} (ds r : Ds α) (name : String) (newL : List Label) (nk : Kind) (fill : α) (fk : Kind)
+    (raiseErr : Bool) (method : Option Side) (h : reindexAxisDsM ds name newL nk fill fk raiseErr method = .ok r) :
+    r.attrs = ds.attrs ∧
+    (∀ e ∈ r.axes, e.name = name → ∃ ax, ds.axes.find? (·.name == name) = some ax ∧ e.attrs = ax.attrs) ∧
+    (∃ e ∈ r.axes, e.name = name) ∧
+    (∀ kv ∈ r.vars, ∃ kv0 ∈ ds.vars, kv.2.attrs = kv0.2.attrs) :=
+  have hs := C16.reindexAxisDsM_spec ds r name newL nk fill fk raiseErr method h
+  ⟨hs.1, hs.2.1, hs.2.2.1, hs.2.2.2.2⟩
+
+open DSV in
+theorem reindexAxisDsM_axis_attrs {α : Type} (ds r : Ds α) (name : String) (newL : List Label) (nk : Kind) (fill : α)
+    (fk : Kind) (raiseErr : Bool) (method : Option Side)
+    (h : reindexAxisDsM ds name newL nk fill fk raiseErr method = .ok r) :
+    (ds.axes.map (·.name)).Nodup → AxisAttrsKept ds.axes r.axes :=
+  C16.kept_of_known (C16.reindexAxisDsM_spec ds r name newL nk fill fk raiseErr method h).2.2.2.1
+
+open OnDisk DSV in
+/-- `DatasetOnDisk.read(names, indices)`: the FILE's metadata becomes the Dataset's; every variable read carries the
+metadata of a variable of the file -/
+theorem readFile_attrs {α : Type} (d : α) (f : DiskDs α) (names : Option (List String)) (idx : Option FileIndex) (r : Ds α)
+    (h : readFile d f names idx = .ok r) :
+    r.attrs = f.attrs ∧ ∀ kv ∈ r.vars, ∃ kv0 ∈ f.vars, kv.2.attrs = kv0.2.attrs := C16.readFile_spec d f names idx r h
+
+open OnDisk DSV in
+/-- `_read_multinc` (`read_nc` of several files): the joined Dataset is fresh (`stack_ds` / `concatenate_ds`, then
+possibly `reindex_axis`) - Dataset metadata DROPPED, every variable's metadata DROPPED -/
+theorem readMulti_attrs {α : Type} [Inhabited α] (d nan : α) (files : List (DiskDs α)) (names : Option (List String))
+    (idx : Option FileIndex) (o : MultiOpts) (defaultKeys : List Label) (r : Ds α)
+    (h : readMulti d nan files names idx o defaultKeys = .ok r) : r.attrs = [] ∧ ∀ kv ∈ r.vars, kv.2.attrs = [] :=
+  C16.readMulti_spec d nan files names idx o defaultKeys r h
+
+open DSV in
+/-- `Dataset.interp_axis`: Dataset and variable metadata kept; the interpolated axis exists in the result and comes
+back WITHOUT metadata (as `interpAxis_axis_attrs`) -/
+theorem interpAxisDs_attrs {α : Type} [Inhabited α] (lin : α → α → Rat → α) (ds r : Ds α) (name : String)
+    (newL : List Label) (nk : Kind) (left right : α) (h : interpAxisDs lin ds name newL nk left right = .ok r) :
+    r.attrs = ds.attrs ∧ (∀ kv ∈ r.vars, ∃ kv0 ∈ ds.vars, kv.2.attrs = kv0.2.attrs) ∧
+    (∀ e ∈ r.axes, e.name = name → e.attrs = []) ∧ (∃ e ∈ r.axes, e.name = name) :=
+  C16.interpAxisDs_spec lin ds r name newL nk left right h
+
+/-- `interp_like`: the array's metadata kept -/
+theorem interpLike_attrs {α : Type} [Inhabited α] (lin : α → α → Rat → α) (a r : DimArray α) (tmpl : List Axis)
+    (left right : α) (h : interpLike lin a tmpl left right = .ok r) : r.attrs = a.attrs :=
+  C16.interpLike_spec lin a r tmpl left right h
+
+open DSV in
+/-- `Dataset.interp_like`: Dataset and variable metadata kept -/
+theorem interpLikeDs_attrs {α : Type} [Inhabited α] (lin : α → α → Rat → α) (ds r : Ds α) (tmpl : List Axis)
+    (left right : α) (h : interpLikeDs lin ds tmpl left right = .ok r) :
+    r.attrs = ds.attrs ∧ ∀ kv ∈ r.vars, ∃ kv0 ∈ ds.vars, kv.2.attrs = kv0.2.attrs :=
+  C16.interpLikeDs_spec lin ds r tmpl left right h
+
+open DSV in
+/-- `Dataset.mean(axis=None)` …: every axis of the result carries the name and metadata of an axis of a variable of the
+input (`Dataset(dict)` re-assembles the axes from the values) -/
+theorem reduceAllDs_axis_attrs {α : Type} (nan : α) (red : List α → α) (ds r : Ds α)
+    (h : reduceAllDs nan red ds = .ok r) : ∀ e ∈ r.axes, C16.VarAxisOf ds e := C16.reduceAllDs_axes nan red ds r h
+
+open DSV in
+theorem reduceDs_axis_attrs {α : Type} (nan : α) (red : List α → α) (ds r : Ds α) (name : String)
+    (h : reduceDs nan red ds name = .ok r) : ∀ e ∈ r.axes, C16.VarAxisOf ds e := C16.reduceDs_axes nan red ds r name h
+
+open DSV in
+/-- `Dataset.copy()`: every axis of the copy carries the name and metadata of an axis of a variable of the input -/
+theorem copyDs_axis_attrs {α : Type} (nan : α) (ds r : Ds α) (h : copyDs nan ds = .ok r) :
+    ∀ e ∈ r.axes, C16.VarAxisOf ds e := C16.copyDs_axes nan ds r h
+
+open DSV in
+/-- `-ds`: every axis of the result IS an axis of a variable of the input (metadata included) -/
+theorem unaryOpDs_axis_attrs {α : Type} (u : α → α) (ds r : Ds α) (h : unaryOpDs u ds = .ok r) :
+    ∀ e ∈ r.axes, ∃ kv ∈ ds.vars, e ∈ kv.2.axes := C16.unaryOpDs_axes u ds r h
+
+open DSV in
+/-- `3 - ds`: every axis of the result IS an axis of a variable of the input (metadata included) -/
+theorem rbinaryOpDs_axis_attrs {α : Type} (f : α → α → α) (ds r : Ds α) (lhs : Operand α)
+    (h : rbinaryOpDs f ds lhs = .ok r) : ∀ e ∈ r.axes, ∃ kv ∈ ds.vars, e ∈ kv.2.axes := C16.rbinaryOpDs_axes f ds r lhs h
+
 /-! ### non-vacuity: the success hypotheses on concrete arrays that carry array-level and axis-level metadata,
 and the exact metadata of the results where an axis LOSES or CHANGES its metadata -/
 
@@ -1090,6 +1172,22 @@ theorem union_empty_example :
     (union { name := "x", labels := [], kind := .i, attrs := [("mine", 1)] } (exC16.axes.getD 0 default)).attrs =
       [("units", 1)] := by decide
 
+/-- a Dataset with Dataset-, variable- and axis-level metadata -/
+def exC16Ds : DSV.Ds Nat :=
+  { axes := [{ name := "x", labels := [.num 10, .num 20], kind := .i, attrs := [("units", 1)] }],
+    vars := [("v", { axes := [{ name := "x", labels := [.num 10, .num 20], kind := .i, attrs := [("units", 1)] }],
+                     vals := { shape := [2], get := fun j => 7 + j.getD 0 0 }, vkind := .i, attrs := [("vnote", 2)] })],
+    attrs := [("title", 5)] }
+
+/-- non-vacuity of `unaryOpDs_axis_attrs` / `copyDs_axis_attrs`: the operations succeed on `exC16Ds`; `-ds` drops the
+Dataset and variable metadata and keeps the axis', `copy()` keeps everything -/
+example : ((DSV.unaryOpDs (· + 1) exC16Ds).toOption.map fun r =>
+      (r.attrs, axisMeta r.axes, r.vars.map fun kv => (kv.1, kv.2.attrs))) =
+    some ([], [("x", [("units", 1)])], [("v", [])]) := by rfl
+example : ((DSV.copyDs 0 exC16Ds).toOption.map fun r =>
+      (r.attrs, axisMeta r.axes, r.vars.map fun kv => (kv.1, kv.2.attrs))) =
+    some ([("title", 5)], [("x", [("units", 1)])], [("v", [("vnote", 2)])]) := by rfl
+
 /-!
 ## Summary: metadata propagation of every modelled operation
 
@@ -1149,22 +1247,29 @@ metadata of the axes (by name).  Every entry is a theorem of this file (or the o
 | `sortAxisKey` (`sort_axis(key=)`)  | kept        | `sortAxisKey_attrs`     | all kept                                                     | `sortAxisKey_axis_attrs`         |
 | `takeAxisInts` (`take_axis` by position, `mode=`) | kept | `takeAxisInts_attrs` | all kept                                                   | `takeAxisInts_axis_attrs`        |
 | `compressNd`                       | kept        | `compressNd_attrs`      | rank 1: kept; any other rank: ONE fresh axis of label tuples, input axis metadata DROPPED | `compressNd_axis_attrs` |
-| `DSV.unaryOpDs` (`-ds`)            | DROPPED (Dataset and variables) | `unaryOpDs_attrs` |                                                  |                                  |
-| `DSV.rbinaryOpDs` (`3 - ds`)       | DROPPED (Dataset and variables) | `rbinaryOpDs_attrs` |                                                |                                  |
+| `DSV.unaryOpDs` (`-ds`)            | DROPPED (Dataset and variables) | `unaryOpDs_attrs` | KEPT: every axis IS an axis of a variable of the input | `unaryOpDs_axis_attrs`           |
+| `DSV.rbinaryOpDs` (`3 - ds`)       | DROPPED (Dataset and variables) | `rbinaryOpDs_attrs` | KEPT: every axis IS an axis of a variable of the input | `rbinaryOpDs_axis_attrs`         |
 | `DSV.takeAxisIntsDs`               | kept (Dataset and variables) | `takeAxisIntsDs_attrs` | all kept by name                                     | `takeAxisIntsDs_attrs`           |
 | `DSV.stackDsA`, `DSV.stackDs` (`stack_ds`) | DROPPED (Dataset and variables) | `stackDsA_attrs`, `stackDs_attrs` | without `align=`: none (new axis) or the pair of an axis of a variable of an input | `stackDsA_axis_attrs`, `stackDs_axis_attrs` |
 | `DSV.concatenateDsA`, `DSV.concatenateDs` (`concatenate_ds`) | DROPPED (Dataset and variables) | `concatenateDsA_attrs`, `concatenateDs_attrs` | without `align=`: none (concatenated axis) or the pair of an axis of a variable of an input | `concatenateDsA_axis_attrs`, `concatenateDs_axis_attrs` |
-| `DSV.reduceAllDs`, `DSV.reduceDs` (`Dataset.mean` …) | Dataset DROPPED; variable: kept, or none (scalar result) | `reduceAllDs_attrs`, `reduceDs_attrs` |                          |                                  |
+| `DSV.reduceAllDs`, `DSV.reduceDs` (`Dataset.mean` …) | Dataset DROPPED; variable: kept, or none (scalar result) | `reduceAllDs_attrs`, `reduceDs_attrs` | name and metadata of an axis of a variable of the input | `reduceAllDs_axis_attrs`, `reduceDs_axis_attrs` |
 | `DSV.binaryOpDs` (`ds + 1`, `ds1 * ds2`) | DROPPED (Dataset and variables) | `binaryOpDs_attrs` | KEPT: none, or a pair of an axis of a variable of an operand | `binaryOpDs_axis_attrs`          |
 | `DSV.reindexLikeDs`                | kept (Dataset and variables) | `reindexLikeDs_attrs` |                                                       |                                  |
-| `DSV.copyDs`                       | Dataset: rewritten onto a fresh Dataset (`Attrs.update []`); variables kept | `copyDs_attrs` |                     |                                  |
+| `DSV.copyDs`                       | Dataset: rewritten onto a fresh Dataset (`Attrs.update []`); variables kept | `copyDs_attrs` | name and metadata of an axis of a variable of the input | `copyDs_axis_attrs`              |
+| `DSV.reindexAxisDsM` (`raise_error`, `method`) | kept (Dataset and variables) | `reindexAxisDsM_attrs` | operated axis: KEPT; all kept by name                | same, `reindexAxisDsM_axis_attrs` |
+| `OnDisk.readFile`                  | the FILE's; variables: those of the file's variables | `readFile_attrs` |                                             |                                  |
+| `OnDisk.readMulti`                 | DROPPED (Dataset and variables) | `readMulti_attrs` |                                                   |                                  |
+| `DSV.interpAxisDs`                 | kept (Dataset and variables) | `interpAxisDs_attrs` | interpolated axis: DROPPED                               | `interpAxisDs_attrs`             |
+| `interpLike`                       | kept        | `interpLike_attrs`      |                                                              |                                  |
+| `DSV.interpLikeDs`                 | kept (Dataset and variables) | `interpLikeDs_attrs` |                                                        |                                  |
 
 Mirror functions that return an array / Dataset and have NO pair yet (decided by the direct sweep of harness/props/c16.py only):
-`reindexAxisDsM`, `readFile`, `readMulti`, `DatasetCtor.construct` (a state machine over axis identities without a metadata
-field), `interpAxisDs`, `interpLike`, `interpLikeDs`; no axis half yet: `stackDsA` / `concatenateDsA` with `align=True` (the axes
-of the ALIGNED Datasets are not traced back to the inputs), `reduceAllDs`, `reduceDs`, `reindexLikeDs`, `copyDs`, `unaryOpDs`,
-`rbinaryOpDs`.  Operations of the sweep without any mirror: broadcast (pointwise) indexing
-`take(..., broadcast=True)`, the `attrs` property setter / deleter, `Axis.__getitem__` with ndarray / boolean keys.
+`DatasetCtor.construct` (a state machine over axis identities without a metadata field); no axis half yet: `stackDsA` /
+`concatenateDsA` with `align=True` (the axes of the ALIGNED Datasets are not traced back to the inputs), `reindexLikeDs`
+(needs "`reindex_axis` keeps the Dataset's dimensions", which holds for well-formed Datasets only), `readFile`, `readMulti`,
+the axes other than the interpolated one of `interpAxisDs` / `interpLike` / `interpLikeDs`.  Operations of the sweep without
+any mirror: broadcast (pointwise) indexing `take(..., broadcast=True)`, the `attrs` property setter / deleter,
+`Axis.__getitem__` with ndarray / boolean keys.
 -/
 
 end DimModel
